@@ -4,7 +4,10 @@ package main
 // counted in RunResult.Stubs and listed in the evidence.
 
 import (
+	"crypto/sha256"
+	"encoding/binary"
 	"encoding/hex"
+	"math/big"
 	"fmt"
 	"go/token"
 	"go/types"
@@ -230,6 +233,37 @@ func (e *Engine) intrinsic(fr *frame, fn *ssa.Function, args []Value, c *ssa.Cal
 		}
 		tail := e.symBytes(tag, int(cp))
 		return &Slice{bobj: e.newByteObj(e.tt.ArrSplit(n, base.bobj.arr, tail)), off: e.c64(0), len: e.c64(n), cap: e.c64(cp)}
+	case "Hash32":
+		// injective uninterpreted function (a, b) -> 32 bytes: "no hash collisions"
+		tag, _ := e.goString(args[0])
+		a, b := args[1].(*Term), args[2].(*Term)
+		var h *Term
+		if e.cfg.Replay != nil {
+			h = e.tt.BigConst(256, new(big.Int).SetBytes(nativeHash32(tag, a.lo, b.lo)))
+		} else {
+			h = e.tt.App("H32_"+tag, SBV, 256, a, b)
+			key := "h32:" + tag
+			prev, _ := e.ghost[key].([]*Term)
+			seen := false
+			for _, o := range prev {
+				if o == h {
+					seen = true
+				}
+			}
+			if !seen {
+				for _, o := range prev {
+					same := e.tt.And(e.tt.Eq(o.args[0], a), e.tt.Eq(o.args[1], b))
+					e.addPC(e.tt.Or(same, e.tt.Not(e.tt.Eq(o, h))))
+				}
+				e.ghost[key] = append(prev, h)
+			}
+		}
+		out := e.tt.ArrConst(nil)
+		for i := 0; i < 32; i++ {
+			out = e.tt.Store(out, e.c64(uint64(i)), e.tt.Extract(h, 255-8*i, 248-8*i))
+		}
+		n := e.c64(32)
+		return &Slice{bobj: e.newByteObj(out), off: e.c64(0), len: n, cap: n}
 	case "Str":
 		tag := e.tagName(args[0])
 		n := e.mustConst(args[1].(*Term), "Str len")
@@ -1213,4 +1247,12 @@ func icSortStrings(e *Engine, fr *frame, fn *ssa.Function, args []Value, c *ssa.
 		e.sliceStore(s, e.c64(uint64(i)), e.concStr(strs[i]))
 	}
 	return nil, true
+}
+
+func nativeHash32(tag string, a, b uint64) []byte {
+	var buf [16]byte
+	binary.BigEndian.PutUint64(buf[:8], a)
+	binary.BigEndian.PutUint64(buf[8:], b)
+	h := sha256.Sum256(append([]byte(tag), buf[:]...))
+	return h[:]
 }
